@@ -157,6 +157,28 @@ def _short(v):
     return s if len(s) < 200 else s[:197] + "..."
 
 
+class DsgeCrossoverChains(LinearStructured):
+    """dSGE genotypes hold genes only for the symbols their mapping read, so parents differ in their
+    key sets; children are mapped (which extends them in place) and crossed over again, several
+    times in one process: a gene list handed to a child must be the child's own."""
+
+    name = "dsge_crossover_chains"
+    reps = ("dsge",)
+
+    def budget(self, tier):
+        return (40, 4) if tier == "quick" else (300, 8)
+
+    def strategy(self, tier):
+        fl = Flags(dependent=False, user_mh=False, max_concrete=7, min_extra_concrete=3, max_abstract=3)
+        idx = st.integers(0, 30)
+        chain = st.lists(st.one_of(st.builds(lambda i, j: ["crossover", i, j], idx, idx), st.builds(lambda i, j: ["crossover", i, j], idx, idx), st.builds(lambda i: ["mutate", i], idx), st.just(["create"])), min_size=4, max_size=14)
+        return st.builds(
+            lambda c, ops: {**c, "ops": [["create"], ["create"], ["create"]] + ops},
+            world_cases(fl, reps=self.reps, deciders=("maxdepth",), max_ops=1, depth_extras=(2, 3, 4), with_map=False),
+            chain,
+        )
+
+
 class GECrossoverAllCuts(Facet):
     """GE crossover for every outcome of its random draws, gene lengths <= 16."""
 
@@ -376,4 +398,4 @@ class TreeCrossoverConcreteStart(TreeCrossover):
         return st.builds(lambda c, x: {**c, "ops": [["create"], ["create"], ["create"]] + x}, base, xs)
 
 
-FACETS = [LinearStructured(), GECrossoverAllCuts(), TreeCrossover(), TreeCrossoverConcreteStart()]
+FACETS = [LinearStructured(), DsgeCrossoverChains(), GECrossoverAllCuts(), TreeCrossover(), TreeCrossoverConcreteStart()]
